@@ -36,28 +36,18 @@ def restrict_preferences(profile: list[tuple], alternatives_set: Collection):
 
 
 def get_B(profile: list[tuple], alt_set: Collection, alternative: int):
-    # B_vals = []
-    B_a = set()
+    B_a = None
 
-    # TODO: Check if B_vals workaround works
     instance = restrict_preferences(profile, alt_set)
 
     for i in instance:
-        # Check if top(i) = a
-        # print("instance: ", i)
-        # print("alternative: ", alternative)
         if alternative == i[0]:
             # B(i, a) = {second(i)}
-            # B_vals.append(i[1])
-            if len(i) != 1:
-                B_a.add(i[1])
+            B_i_a = set(i[1:2])
         else:
-            # get all alternatives before a
-            # B_vals.append(i[:i.index(alternative)])
-            if len(B_a) == 0:
-                B_a = set(i[: i.index(alternative)])
-            else:
-                B_a = B_a.intersection(set(i[: i.index(alternative)]))
+            # B(i, a) = all alternatives ranked before a
+            B_i_a = set(i[: i.index(alternative)])
+        B_a = B_i_a if B_a is None else B_a.intersection(B_i_a)
 
     return B_a
 
